@@ -237,9 +237,9 @@ def parseOperation (text : Str) : Option ParsedOperation :=
       | _ => none
     | _ => none
 
-/-- query_text.ts → operation -/
+/-- query_text.ts → operation: the JavaScript value of the embedded literal is the document -/
 def parseQueryTextFile (file : Str) : Option ParsedOperation :=
-  (embeddedText file).bind fun t => parseOperation (dropContinuations t)
+  (embeddedText file).bind fun t => (jsSingleQuotedValue t).bind parseOperation
 
 /-! ### object literals of the normalization AST -/
 
